@@ -1,0 +1,131 @@
+//go:build verif
+
+package main
+
+// Contracts for the top-level jd command (v1 and v2 code paths), read by the verifier in /verif
+// (jdvc). Comments only. Effect model and clause conventions as in v2/jd/verif_contracts.go.
+
+//@ sweep C13 C14
+//@ nosweep runAsGitHubAction uses defer and os/exec (outside the verified subset); not part of the CLI contract
+//@ nosweep serveWeb starts the web UI (net/http); not part of the CLI contract
+//@ nosweep init flag registration at package initialisation
+
+//@ contract printDiff
+//@   noreturn
+//@   ensures_exit err != nil ==> exit == 2 && stdout == old(stdout) && stderrLines == old(stderrLines) + 1
+//@   ensures_exit exit == 2 ==> stdout == old(stdout) && stderrLines == old(stderrLines) + 1
+//@   ensures_exit exit != 2 && *output == "" ==> stdout == old(stdout) + str && fileWritten == old(fileWritten) && stderrLines == old(stderrLines)
+//@   ensures_exit exit != 2 && *output != "" ==> stdout == old(stdout) && fileWritten && fileName == *output && fileData == str && writeErr == nil
+//@   ensures_exit exit != 2 ==> exit == specExitCode(haveDiff)
+//@   ensures_exit exit == 0 || exit == 1 || exit == 2
+//@   carries C14 C05
+
+//@ contract printDiffV2
+//@   noreturn
+//@   ensures_exit err != nil ==> exit == 2 && stdout == old(stdout) && stderrLines == old(stderrLines) + 1
+//@   ensures_exit exit == 2 ==> stdout == old(stdout) && stderrLines == old(stderrLines) + 1
+//@   ensures_exit exit != 2 && *output == "" ==> stdout == old(stdout) + str && fileWritten == old(fileWritten) && stderrLines == old(stderrLines)
+//@   ensures_exit exit != 2 && *output != "" ==> stdout == old(stdout) && fileWritten && fileName == *output && fileData == str && writeErr == nil
+//@   ensures_exit exit != 2 ==> exit == specExitCode(haveDiff)
+//@   ensures_exit exit == 0 || exit == 1 || exit == 2
+//@   carries C14 C05
+
+//@ contract printPatch
+//@   noreturn
+//@   ensures_exit exit == 2 ==> stdout == old(stdout) && stderrLines == old(stderrLines) + 1
+//@   ensures_exit exit != 2 ==> exit == 0
+//@   ensures_exit exit != 2 && *output == "" ==> stdout == old(stdout) + out && fileWritten == old(fileWritten)
+//@   ensures_exit exit != 2 && *output != "" ==> stdout == old(stdout) && fileWritten && fileName == *output && fileData == out && writeErr == nil
+//@   ensures_exit exit == 0 || exit == 2
+//@   carries C14
+
+//@ contract printPatchV2
+//@   noreturn
+//@   ensures_exit exit == 2 ==> stdout == old(stdout) && stderrLines == old(stderrLines) + 1
+//@   ensures_exit exit != 2 ==> exit == 0
+//@   ensures_exit exit != 2 && *output == "" ==> stdout == old(stdout) + out && fileWritten == old(fileWritten)
+//@   ensures_exit exit != 2 && *output != "" ==> stdout == old(stdout) && fileWritten && fileName == *output && fileData == out && writeErr == nil
+//@   ensures_exit exit == 0 || exit == 2
+//@   carries C14
+
+//@ contract printTranslation
+//@   noreturn
+//@   ensures_exit exit == 2 ==> stdout == old(stdout) && stderrLines == old(stderrLines) + 1
+//@   ensures_exit exit != 2 ==> exit == 0
+//@   ensures_exit exit != 2 && *output == "" ==> stdout == old(stdout) + out && fileWritten == old(fileWritten)
+//@   ensures_exit exit != 2 && *output != "" ==> stdout == old(stdout) && fileWritten && fileName == *output && fileData == out && writeErr == nil
+//@   ensures_exit exit == 0 || exit == 2
+//@   carries C14
+
+//@ contract printTranslationV2
+//@   noreturn
+//@   ensures_exit exit == 2 ==> stdout == old(stdout) && stderrLines == old(stderrLines) + 1
+//@   ensures_exit exit != 2 ==> exit == 0
+//@   ensures_exit exit != 2 && *output == "" ==> stdout == old(stdout) + out && fileWritten == old(fileWritten)
+//@   ensures_exit exit != 2 && *output != "" ==> stdout == old(stdout) && fileWritten && fileName == *output && fileData == out && writeErr == nil
+//@   ensures_exit exit == 0 || exit == 2
+//@   carries C14
+
+//@ contract errorfAndExit
+//@   noreturn
+//@   ensures_exit exit == 2 && stdout == old(stdout) && stderrLines == old(stderrLines) + 1
+//@   carries C14 C13
+
+//@ contract errorAndExit
+//@   noreturn
+//@   ensures_exit exit == 2 && stdout == old(stdout) && stderrLines == old(stderrLines) + 1
+//@   carries C14 C13
+
+//@ contract printUsageAndExit
+//@   noreturn
+//@   ensures_exit exit == 2
+//@   carries C14
+
+//@ contract readFile
+//@   ensures_exit exit == 2 && stdout == old(stdout) && stderrLines == old(stderrLines) + 1
+//@   carries C14 C13
+
+//@ contract readStdin
+//@   ensures_exit exit == 2 && stdout == old(stdout) && stderrLines == old(stderrLines) + 1
+//@   carries C14 C13
+
+//@ contract printGitDiffDriver
+//@   ensures_exit exit == 2 ==> stdout == old(stdout)
+//@   ensures_exit exit != 2 ==> exit == 0 && stdout == old(stdout) + str
+//@   carries C14
+
+//@ contract parseMetadataV2
+//@   ensures *precision != 0.0 && (*set || *mset) ==> ret1 != nil
+//@   ensures ret1 == nil ==> specOptIn(ret0, v2.SET) == *set
+//@   ensures ret1 == nil ==> specOptIn(ret0, v2.MULTISET) == *mset
+//@   ensures ret1 == nil ==> specOptIn(ret0, v2.MERGE) == (*format == "merge")
+//@   loop "range ks" invariant true
+//@   carries C14
+
+//@ contract parseMetadata
+//@   ensures *precision != 0.0 && (*set || *mset) ==> ret1 != nil
+//@   loop "range ks" invariant true
+//@   carries C14
+
+//@ contract diffV2
+//@   ensures ret2 == nil && (*format == "" || *format == "jd") ==> ret1 == (ret0 != "")
+//@   ensures ret2 == nil && *format == "patch" ==> ret1 == (ret0 != "[]")
+//@   ensures ret2 == nil && *format == "merge" ==> ret1 == (ret0 != "{}")
+//@   carries C14 C05
+
+//@ contract diff
+//@   ensures ret2 == nil && (*format == "" || *format == "jd") ==> ret1 == (ret0 != "")
+//@   ensures ret2 == nil && *format == "patch" ==> ret1 == (ret0 != "[]")
+//@   ensures ret2 == nil && *format == "merge" ==> ret1 == (ret0 != "{}")
+//@   carries C14 C05 C17
+
+//@ contract main
+//@   ensures_exit exit == 0 || exit == 1 || exit == 2
+//@   carries C14 C13
+
+//@ contract serveWeb
+//@   trusted
+//@ contract runAsGitHubAction
+//@   trusted
+//@   noreturn
+//@   ensures_exit exit == 0 || exit == 2
